@@ -82,6 +82,27 @@ def replay_ser(state):
         obs["j0_tagged"] = codec.py_to_tagged(j0)
     except ValueError as exc:
         obs["j0_tagged_err"] = str(exc)[:200]
+    # DSL-only shape the parser never produces: the required names given ONLY as an explicit
+    # list next to properties whose own `required` flag is off
+    try:
+        rec = obs.get("elem")
+        if rec and isinstance(rec["kw"], dict) and rec["kw"].get("properties"):
+            names = [p["source"] for p in rec["kw"]["properties"] if p["required"]]
+            if names:
+                var = copy.deepcopy(rec)
+                for p in var["kw"]["properties"]:
+                    p["required"] = False
+                var["kw"]["required"] = list(dict.fromkeys(list(var["kw"].get("required", [])) + names))
+                vel = drive.build_element(var)
+                obs["var_kinds"] = [drive.call(vel, v)[0] for v in pyvals]
+                jv = serialize_json(vel)
+                json.dumps(jv)
+                obs["jv"] = jv
+                obs["jv_tagged"] = codec.py_to_tagged(jv)
+    except ValueError:
+        pass
+    except Exception as exc:  # noqa
+        obs["jv_err"] = type(exc).__name__ + ": " + str(exc)[:160]
     # caller-supplied definitions: one element picked from inside the tree, one from outside
     try:
         from statham.schema.elements import String
@@ -158,6 +179,21 @@ def _ser_model_obs(st):
     return {"parse": "ok", "same": same}
 
 
+def _model_doc_roundtrip(st):
+    """the document the SPECIFICATION's serializer predicts, pushed through the real
+    parse -> serialize: it must come back unchanged (C06 on the spec's serializer image)"""
+    if not st["ok"]:
+        return None
+    try:
+        j = codec.val_to_py(st["j0"])
+        back, _ = _reparse(copy.deepcopy(j))
+        return {"j": j, "back": back, "j_t": st["j0"], "back_t": codec.py_to_tagged(back)}
+    except ValueError:
+        return None
+    except Exception as exc:  # noqa
+        return {"err": type(exc).__name__ + ": " + str(exc)[:160], "j": codec.val_to_py(st["j0"])}
+
+
 def serializer_model_part(rep, pid, tier):
     """MC_Ser: TLC evaluates C03/C06 on the MODEL's serializer for every document; the real
     serialize_json output is compared with the model's (equal => TLC's verdict stands)."""
@@ -182,8 +218,35 @@ def serializer_model_part(rep, pid, tier):
             rep.violation(key, f"{clause} (design level, real serializer output equals the model's): "
                           f"{json.dumps(codec.schema_to_json(st['doc']))[:200]} -> {json.dumps(codec.val_to_py(st['j0']))[:200]}",
                           dict(state=st))
+    fix_events = 0
+    if pid == "C06":
+        backs = drive.pmap(_model_doc_roundtrip, states, chunksize=32)
+        evs, idx = [], {}
+        for st, b in zip(states, backs):
+            if b is None:
+                continue
+            if "err" in b:
+                rep.violation(("C06", "model-document-not-parsable", _kwsig(st["doc"])),
+                              f"the document the specification's serializer predicts cannot be parsed back: {json.dumps(b['j'])[:200]}: {b['err']}",
+                              dict(state=st))
+                continue
+            eid = len(idx) + 1
+            idx[eid] = (st, b)
+            evs.append((eid, '[id |-> %d, p |-> "C06", j0 |-> %s, j1 |-> %s]'
+                        % (eid, tlajson_to_tla(b["j_t"]), tlajson_to_tla(b["back_t"]))))
+        if evs:
+            rej, _adj = df.adjudicate(evs, parallel=12)
+            for eid, clause in sorted(rej.items()):
+                st, b = idx[eid]
+                key = ("C06", clause) if clause == "definition-names-differ-only" else \
+                      ("C06", clause, "model-document", _kwsig_json(b["j"]))
+                rep.violation(key, f"{clause}: the document of the specification's serializer image "
+                              f"{json.dumps(b['j'])[:200]} comes back from parse -> serialize as {json.dumps(b['back'])[:200]}",
+                              dict(state=st))
+        fix_events = len(evs)
     return dict(states=meta["distinct"] + smeta["distinct"], transitions=meta["states"] + smeta["states"],
-                documents=len(states), real_equals_model=len(states) - drift, drift=drift, model_flagged=flagged)
+                documents=len(states), real_equals_model=len(states) - drift, drift=drift, model_flagged=flagged,
+                model_documents_round_tripped=fix_events)
 
 
 def run(pid, tier, replay_file=None):
@@ -233,6 +296,14 @@ def run(pid, tier, replay_file=None):
             kinds = "<<" + ", ".join(codec.tla_str(k) for k in ob["kinds"]) + ">>"
             add_event(si, "C03", '[id |-> @ID@, p |-> "C03", j |-> %s, kinds |-> %s]'
                       % (tlajson_to_tla(ob["j0_tagged"]), kinds))
+            if "jv_err" in ob:
+                rep.violation(("C03", "serialize-dsl-variant-raises", sig),
+                              f"serialize_json fails for the DSL variant (explicit required list) of {sjson(st)}: {ob['jv_err']}",
+                              dict(state=st, observed=_slim(ob)))
+            elif "jv_tagged" in ob:
+                vk = "<<" + ", ".join(codec.tla_str(k) for k in ob["var_kinds"]) + ">>"
+                add_event(si, "C03dsl", '[id |-> @ID@, p |-> "C03", j |-> %s, kinds |-> %s]'
+                          % (tlajson_to_tla(ob["jv_tagged"]), vk))
             if "jd_err" in ob:
                 rep.violation(("C03", "serialize-with-definitions-raises", sig),
                               f"serialize_json(..., definitions=...) fails for {sjson(st)}: {ob['jd_err']}",
@@ -304,8 +375,8 @@ def run(pid, tier, replay_file=None):
             st, ob = states[si], observations[si]
             clause = rejected[eid]
             if pid == "C03":
-                jj = ob.get("jd") if tag == "C03defs" else ob["j0"]
-                msg = (f"serialize_json{' with caller-supplied definitions' if tag == 'C03defs' else ''} of the element parsed from {sjson(st)} gives "
+                jj = ob.get("jd") if tag == "C03defs" else ob.get("jv") if tag == "C03dsl" else ob["j0"]
+                msg = (f"serialize_json{' with caller-supplied definitions' if tag == 'C03defs' else ' of the DSL variant with an explicit required list' if tag == 'C03dsl' else ''} of the element parsed from {sjson(st)} gives "
                        f"{json.dumps(jj)[:240]}: {clause}")
                 key = ("C03", clause, tag, _kwsig_json(jj))
             elif pid == "C06":
@@ -393,7 +464,7 @@ def _fix(rec):
 
 
 def _slim(ob):
-    return {k: (v if k in ("parse", "kinds", "j0", "j1", "jd", "jd_err", "jm", "jm1", "jm_err", "j0_err", "j1_err", "py_err", "elem_err") else "...")
+    return {k: (v if k in ("parse", "kinds", "j0", "j1", "jd", "jd_err", "jv", "jv_err", "jm", "jm1", "jm_err", "j0_err", "j1_err", "py_err", "elem_err") else "...")
             for k, v in ob.items()}
 
 
